@@ -494,6 +494,14 @@ class Evaluator:
                     return self.lift(lambda x: Const(not x.value) if isinstance(x, Const) else self._not(x), res)
             if m is not None:
                 return self.call_func(m, [r], {}, st, ctx, self_val=l)
+            # a comparison method bound in the class body to a function object (built by a factory, an alias)
+            for nm in ((name,) if name != '__ne__' else ('__ne__', '__eq__')):
+                ca = self.class_attr(l.cls, nm, ctx)
+                if isinstance(ca, FuncRef) and ca.self_val is None:
+                    res = self.call(ca, [l, r], {}, st, ctx)
+                    if nm != name:
+                        return self.lift(lambda x: Const(not x.value) if isinstance(x, Const) else self._not(x), res)
+                    return res
             raise Undecided(f'comparison on {l.cls.name}')
         if isinstance(r, Inst) and not isinstance(l, Inst):
             swap = {ast.Eq: ast.Eq, ast.NotEq: ast.NotEq, ast.Lt: ast.Gt, ast.LtE: ast.GtE, ast.Gt: ast.Lt,
@@ -1808,6 +1816,8 @@ class Evaluator:
                 st.heap[base.oid][target.attr] = v
             elif isinstance(base, SymObj):
                 st.env[f'$store:{base.path}.{target.attr}'] = v
+            elif isinstance(base, FuncRef) and target.attr in ('__name__', '__qualname__', '__doc__', '__module__'):
+                pass                # cosmetic attributes of a function object
             else:
                 raise Undecided(f'attribute store on {base!r}')
         elif isinstance(target, ast.Subscript):
